@@ -14,6 +14,8 @@ import (
 var profiles = map[string]Profile{
 	"basic": {Name: "basic", Clients: 2, Resources: 3, Stimuli: 14, Refs: false, Unsub: true, Clean: true},
 	"refs":  {Name: "refs", Clients: 2, Resources: 4, Stimuli: 18, Refs: true, Collections: true, Unsub: true, Clean: true},
+	"churn": {Name: "churn", Clients: 3, Resources: 4, Stimuli: 22, Refs: true, Collections: true, Unsub: true, Faults: true, Disconnect: true, Evict: true, Deletes: true, Clean: true},
+	"wild":  {Name: "wild", Clients: 3, Resources: 4, Stimuli: 24, Refs: true, Collections: true, Unsub: true, Gets: true, Faults: true, Disconnect: true, Evict: true, Deletes: true},
 	"gets":  {Name: "gets", Clients: 2, Resources: 4, Stimuli: 18, Refs: true, Collections: true, Unsub: true, Gets: true, Faults: true, Clean: true},
 }
 
